@@ -109,9 +109,10 @@ class FieldArrayModel(FieldCompositeModel):
         self.trim_to_size()
             
     def trim_to_size(self):
-        if self.is_rand_sz and self.is_scalar:
-            # Elements were pre-allocated up to the largest admissible size.
-            # Only the first 'size' of them are part of the list
+        if self.is_rand_sz:
+            # Elements were pre-allocated up to the largest admissible size
+            # (scalars), or the solved size is smaller than the number of 
+            # objects held. Only the first 'size' of them are part of the list
             sz = int(self.size.get_val())
             if len(self.field_l) > sz:
                 del self.field_l[sz:]
